@@ -227,6 +227,10 @@ def gen_history(rng, prof, probes):
                 sh.bkn += 1
                 name = 'b%d' % sh.bkn
                 note('backup_fresh')
+            if rng.random() < prof.get('p_bkhalf', 0.0):
+                # an earlier Backup into this directory was interrupted after the log files: this one must finish the job
+                ops.append('bkhalf ' + name)
+                note('backup_after_interrupted')
             ops.append('backup ' + name)
             sh.bk[name] = True
             ops.append('bkobs %s %d' % (name, rng.choice([0, 0, 1])))
